@@ -79,6 +79,7 @@ Definition compute_inv (t : ts) (inv_det : f64) : ts :=
    [false] = the pinned tree, which returned Some without looking. *)
 Definition invert_gen (checked : bool) (t : ts) : option ts :=
   if is_identity t then Some t
+  else if checked && negb (ts_is_finite t) then None
   else if is_scale_translate t then
     let r :=
       if has_scale t then
